@@ -10,6 +10,7 @@ import (
 	"encoding/json"
 	"flag"
 	"fmt"
+	"math/rand"
 	"os"
 	"regexp"
 	"runtime/debug"
@@ -92,6 +93,8 @@ func main() {
 	feasSolver := flag.String("feassolver", "z3-new", "solver used for in-line feasibility checks")
 	concrete := flag.String("concrete", "", "replay vector (JSON): execute the harness concretely with these draws")
 	summarize := flag.String("summarize", "", "regexp of package-level functions replaced by the opaque summary S4 (user hooks)")
+	witnesses := flag.Int("witnesses", 0, "extra randomised witness models per harness end (replayed natively by the runner)")
+	seed := flag.Int64("seed", 0, "seed of the randomised witnesses")
 	doInit := flag.Bool("init", false, "execute the harness package's init (needed for level K globals)")
 	labels := flag.String("labels", "", "regexp: only obligations whose label matches are emitted (no-panic is always kept)")
 	flag.Parse()
@@ -141,6 +144,7 @@ func main() {
 	}
 
 
+	rng := rand.New(rand.NewSource(*seed + 1))
 	re := regexp.MustCompile(*run)
 	var labelRe *regexp.Regexp
 	if *labels != "" {
@@ -241,6 +245,12 @@ func main() {
 					continue
 				case "reach":
 					add(a.Label, "witness", "sat", buildQuery(a.Assumes, a.PC), true, "")
+					// diversified witnesses: random values for a random subset of the draws; each
+					// satisfiable one is replayed natively by the runner (translator validation)
+					for k := 0; k < *witnesses; k++ {
+						cs := randomDraws(e.nondets, rng)
+						add(a.Label, "witness-random", "any", buildQuery(append([]*Term{a.Assumes, a.PC}, cs...)...), true, "")
+					}
 					continue
 				}
 				key := [2]int{a.Assumes.id, a.PC.id}
@@ -485,4 +495,34 @@ func (e *Engine) runInit(pkg *ssa.Package, st *State) *State {
 	e.asserts = nil
 	st.pc = TrueT
 	return st
+}
+
+var boundaryInts = []uint64{0, 1, 2, 0x7f, 0x80, 0xff, 0x7fff, 0x8000, 0x7fffffff, 0x80000000, 0xffffffff, 1 << 53, 1<<53 + 1,
+	0x7fffffffffffffff, 0x8000000000000000, 0xffffffffffffffff, 0xfffffffffffffffe}
+
+// randomDraws constrains a random subset of the nondet draws to random (boundary-biased) values.
+func randomDraws(nd []Nondet, rng *rand.Rand) []*Term {
+	var cs []*Term
+	for _, d := range nd {
+		if d.T == nil || rng.Intn(100) < 35 {
+			continue
+		}
+		switch d.Tag {
+		case "bool":
+			cs = append(cs, Eq(d.T, BoolC(rng.Intn(2) == 0)))
+		case "len":
+			if d.Max >= 0 {
+				cs = append(cs, Eq(d.T, BVC(64, uint64(rng.Int63n(d.Max+1)))))
+			}
+		case "str":
+			cs = append(cs, Eq(d.T, StrC([]string{"", "a", "b", "ab", "x_y"}[rng.Intn(5)])))
+		case "i32", "u32", "i64", "u64", "f32", "f64":
+			v := boundaryInts[rng.Intn(len(boundaryInts))]
+			if rng.Intn(3) == 0 {
+				v = rng.Uint64()
+			}
+			cs = append(cs, Eq(d.T, BVC(d.T.W, v)))
+		}
+	}
+	return cs
 }
